@@ -23,6 +23,7 @@ def family():
     yield from F.fam_clocks(F.DYADIC_TICKS + F.DECIMAL_TICKS)
     yield from F.fam_clocks_condaux()
     yield from F.fam_clocks_aux_interrupt()
+    yield from F.fam_clocks_rebid()
     if core.TIER != "quick":
         yield from F.fam_clocks_deep()
 
